@@ -15,7 +15,7 @@ use crate::simkit::clock::SimClock;
 use crate::simkit::rt;
 use crate::simkit::runner::{Property, RunCtx, RunReport, Tier};
 use crate::simkit::tape::{fnv, Src};
-use redis_sim::replication::state::{CrdtValue, ReplicationDelta};
+use redis_sim::replication::state::{CrdtValue, ReplicationDelta, ReplicatedValue};
 use redis_sim::replication::ConsistencyLevel;
 use serde_json::json;
 use std::collections::{BTreeMap, BTreeSet};
@@ -66,7 +66,7 @@ impl Property for C06 {
     fn components_real(&self) -> Vec<&'static str> { vec!["production::ReplicatedShardedState::{execute,apply_remote_deltas,snapshot_state} with 16 ReplicatedShardActors per node", "ReplicatedShardActor::{record_mutation_post_execute,apply_remote_delta_impl}", "replication::GossipState::{queue_deltas,drain_outbound}, GossipMessage::{serialize,deserialize,into_deltas}", "ShardReplicaState / ReplicatedValue::merge"] }
     fn components_stubbed(&self) -> Vec<&'static str> { vec!["GossipManager's TCP loop -> gossip pump over SimNet (same calls: drain_outbound, serialize, deserialize, apply_remote_deltas)", "clients call ReplicatedShardedState::execute directly (no connection handler in the replicated server either)", "clock stands still (no eviction ticks)"] }
     fn assumptions(&self) -> Vec<&'static str> { vec!["premise of the property is established by construction: after the fault phase every emitted delta is handed to every node", "the agreed value is computed from the deltas seen on the wire: greatest (time, replica) stamp per key / per hash field"] }
-    fn required_probes(&self) -> Vec<&'static str> { vec!["same_key_written_at_two_nodes", "message_reordered", "message_lost_then_redelivered", "partitioned", "hash_written"] }
+    fn required_probes(&self) -> Vec<&'static str> { vec!["same_key_written_at_two_nodes", "message_reordered", "message_lost_then_redelivered", "partitioned", "hash_written", "node_restarted", "message_lost_for_good_then_anti_entropy"] }
     fn runs(&self, tier: Tier) -> u64 { match tier { Tier::Quick => 50000, Tier::Thorough => 1500000 } }
 
     fn run(&self, src: &mut Src, ctx: &RunCtx) -> RunReport {
@@ -84,6 +84,7 @@ impl Property for C06 {
         // the other half additionally hand every delta to every node again in a random order, as an
         // anti-entropy pass would (which must not change the outcome, but can mask a lost update).
         let full_redelivery = src.chance(1, 2);
+        let anti_entropy_instead = src.chance(1, 4);
         let script: Vec<(u64, usize, Cmd, usize)> = src.list(40, 29, 30, |s| { let kind = s.below(10); let node = s.idx(n); let c = gen_cmd(s, &mut uniq, hashes, type_changes, expiry, focus); (kind, node, c, s.idx(n)) });
         let seed = src.u64_any();
         let trace = ctx.trace;
@@ -92,7 +93,7 @@ impl Property for C06 {
         let out: Out = rt::block_on(seed, async move {
             let mut o = Out { viol: vec![], log: vec![], probes: BTreeMap::new(), faults: BTreeMap::new(), nontrivial: false, evals: 0 };
             let clock = SimClock::new(1_700_000_000_000);
-            let nodes: Vec<Node> = (0..n).map(|i| Node::new(i as u64 + 1, level, &clock)).collect();
+            let mut nodes: Vec<Node> = (0..n).map(|i| Node::new(i as u64 + 1, level, &clock)).collect();
             let mut net = SimNet::default();
             let mut all_deltas: Vec<ReplicationDelta> = Vec::new();
             let mut writers: BTreeMap<String, BTreeSet<usize>> = BTreeMap::new();
@@ -158,19 +159,44 @@ impl Property for C06 {
                     withheld = true;
                 } else if *kind == 8 {
                     if node != other { net.partition(*node, *other); *o.probes.entry("partitioned").or_insert(0) += 1; *o.faults.entry("net_partition").or_insert(0) += 1; withheld = true; if trace { o.log.push(format!("net: partition node{} | node{}", node + 1, other + 1)); } }
+                } else if node == other {
+                    // the node restarts from a checkpoint of its own replication state (nothing is lost: the
+                    // checkpoint is taken at this instant); messages in flight keep arriving afterwards
+                    let snap: std::collections::HashMap<String, ReplicatedValue> = nodes[*node].state.snapshot_state().await.into_iter().collect();
+                    let fresh = Node::new(*node as u64 + 1, level, &clock);
+                    fresh.state.apply_recovered_state(Some(snap), vec![]);
+                    let _ = fresh.snapshot().await;
+                    nodes[*node] = fresh;
+                    *o.faults.entry("node_restart_from_checkpoint").or_insert(0) += 1;
+                    *o.probes.entry("node_restarted").or_insert(0) += 1;
+                    if trace { o.log.push(format!("node{}: restarts from a checkpoint of its state", node + 1)); }
                 } else { net.heal(); if trace { o.log.push("net: heal".to_string()); } }
             }
             // ---- faults stop: heal, drain, redeliver, then hand every delta to every node
             net.heal();
             let lost = std::mem::take(&mut net.lost);
-            if !lost.is_empty() { *o.probes.entry("message_lost_then_redelivered").or_insert(0) += lost.len() as u64; }
-            for f in lost { net.flying.push(f); }
+            // lost messages either arrive after all (redelivery), or never do and the replicas' state reaches the
+            // others by anti-entropy instead: every node pushes what it holds for every key to every other node
+            if !anti_entropy_instead {
+                if !lost.is_empty() { *o.probes.entry("message_lost_then_redelivered").or_insert(0) += lost.len() as u64; }
+                for f in lost { net.flying.push(f); }
+            } else if !lost.is_empty() { *o.probes.entry("message_lost_for_good_then_anti_entropy").or_insert(0) += lost.len() as u64; }
             let mut guard = 0;
             while !net.flying.is_empty() && guard < 10_000 { guard += 1; if let Some(f) = net.step(src, false) { let _ = nodes[f.to].receive(&f.bytes); } }
             if net.reordered > 0 { *o.probes.entry("message_reordered").or_insert(0) += net.reordered; }
             *o.faults.entry("net_reorder").or_insert(0) += net.reordered; *o.faults.entry("net_duplicate").or_insert(0) += net.duplicated; *o.faults.entry("net_drop_then_redeliver").or_insert(0) += net.dropped;
+            if anti_entropy_instead {
+                for _round in 0..2 {
+                    for i in 0..n { for j in 0..n { if i == j { continue; }
+                        let st: Vec<(String, ReplicatedValue)> = { let mut v: Vec<(String, ReplicatedValue)> = nodes[i].state.snapshot_state().await.into_iter().collect(); v.sort_by(|a, b| a.0.cmp(&b.0)); v };
+                        let ds: Vec<ReplicationDelta> = st.into_iter().map(|(k, v)| ReplicationDelta::new(k, v, redis_sim::replication::lattice::ReplicaId::new(i as u64 + 1))).collect();
+                        nodes[j].state.apply_remote_deltas(ds);
+                        let _ = nodes[j].snapshot().await;
+                    } }
+                }
+            }
             for (i, node) in nodes.iter().enumerate() {
-                if !full_redelivery { break; }
+                if !full_redelivery || anti_entropy_instead { break; }
                 let mut order: Vec<usize> = (0..all_deltas.len()).collect();
                 for j in (1..order.len()).rev() { let x = src.idx(j + 1); order.swap(j, x); }
                 let _ = i;
@@ -261,7 +287,7 @@ impl Property for C06 {
         let mut fp = fnv(0, &[n as u8, hashes as u8, type_changes as u8, expiry as u8]);
         for (k, nd, c, o2) in &script { fp = fnv(fp, &[*k as u8, *nd as u8, *o2 as u8]); for a in c { fp = fnv(fp, a); } }
         rep.fingerprint = fp;
-        rep.sample = Some(json!({"full_redelivery_at_end": full_redelivery, "focus": focus, "nodes": n, "consistency": format!("{:?}", level), "type_changes": type_changes, "expiry": expiry, "script": script.iter().take(14).map(|(k, nd, c, o2)| if *k < 5 { format!("node{}: {}", nd + 1, show_cmd(c)) } else if *k < 8 { "net: deliver/duplicate/lose one message".to_string() } else if *k == 8 { format!("net: partition node{}|node{}", nd + 1, o2 + 1) } else { "net: heal".to_string() }).collect::<Vec<_>>() }));
+        rep.sample = Some(json!({"full_redelivery_at_end": full_redelivery, "anti_entropy_instead_of_redelivery": anti_entropy_instead, "focus": focus, "nodes": n, "consistency": format!("{:?}", level), "type_changes": type_changes, "expiry": expiry, "script": script.iter().take(14).map(|(k, nd, c, o2)| if *k < 5 { format!("node{}: {}", nd + 1, show_cmd(c)) } else if *k < 8 { "net: deliver/duplicate/lose one message".to_string() } else if *k == 8 { format!("net: partition node{}|node{}", nd + 1, o2 + 1) } else { "net: heal".to_string() }).collect::<Vec<_>>() }));
         rep
     }
 }
